@@ -1024,6 +1024,77 @@ func propC14(r *Run) {
 			h.alts = cands[1:]
 			hists = append(hists, h)
 		}
+		// S2: the ORDER of a multi-valued positional / option (base = [a, b], variant = [b, a]), and
+		// string arguments that differ in KIND only (join / order, point / between-site): value
+		// pairs that a lossy encoding of the key would confuse
+		for i, p := range cmd.pos {
+			if p.kind != "extra" {
+				continue
+			}
+			var cands []cliHist
+			for k := 0; k < nCand; k++ {
+				b2 := bases[k].clone()
+				a := p.vals[r.rng.intn(len(p.vals))]
+				b2.pos[i] = []string{a, pickOther(r.rng, p.vals, a)}
+				v2 := b2.clone()
+				v2.pos[i] = []string{b2.pos[i][1], b2.pos[i][0]}
+				cands = append(cands, histOf("sweep/order", b2.run(), v2.run(), b2.run()))
+			}
+			h := cands[0]
+			h.alts = cands[1:]
+			hists = append(hists, h)
+		}
+		for _, o := range cmd.opts {
+			if o.kind != "multi" {
+				continue
+			}
+			var cands []cliHist
+			for k := 0; k < nCand; k++ {
+				b2 := bases[k].clone()
+				a := o.vals[r.rng.intn(len(o.vals))]
+				b2.vals[o.long] = []string{a, pickOther(r.rng, o.vals, a)}
+				v2 := b2.clone()
+				v2.vals[o.long] = []string{b2.vals[o.long][1], b2.vals[o.long][0]}
+				cands = append(cands, histOf("sweep/order", b2.run(), v2.run(), b2.run()))
+			}
+			h := cands[0]
+			h.alts = cands[1:]
+			hists = append(hists, h)
+		}
+		// argument texts that differ only in bytes that are not valid UTF-8 (a JSON encoding of the
+		// key writes both as U+FFFD: repaired defect F32)
+		for _, o := range cmd.opts {
+			if o.kind != "multi" || (cmd.name != "define" && cmd.name != "search") {
+				continue
+			}
+			var cands []cliHist
+			for k := 0; k < nCand; k++ {
+				b2 := bases[k].clone()
+				b2.vals[o.long] = []string{"note=a\xffb"}
+				v2 := b2.clone()
+				v2.vals[o.long] = []string{"note=a\xfeb"}
+				cands = append(cands, histOf("sweep/bytes", b2.run(), v2.run(), b2.run()))
+			}
+			h := cands[0]
+			h.alts = cands[1:]
+			hists = append(hists, h)
+		}
+		if cmd.name == "define" {
+			for _, pr := range [][2]string{{"join(1..3,7..9)", "order(1..3,7..9)"}, {"6", "5^6"},
+				{"complement(join(1..3,7..9))", "complement(order(1..3,7..9))"}, {"complement(6)", "complement(5^6)"}} {
+				var cands []cliHist
+				for k := 0; k < nCand; k++ {
+					b2 := bases[k].clone()
+					b2.pos[1] = []string{pr[0]}
+					v2 := b2.clone()
+					v2.pos[1] = []string{pr[1]}
+					cands = append(cands, histOf("sweep/kind", b2.run(), v2.run(), b2.run()))
+				}
+				h := cands[0]
+				h.alts = cands[1:]
+				hists = append(hists, h)
+			}
+		}
 		for b := 0; b < nBases; b++ {
 			base := bases[b]
 			baseRun := base.run()
